@@ -15,13 +15,14 @@ LEVEL = "exploration"
 RULE = ("(a) every public function of the prelude and of the built-in files __fs/__shell/__random/__reflect/__time "
         "(names and arities read from the sources at run time, so new built-ins are picked up) with 0, 1 and (hashed "
         "sample) 2 and 3 arguments drawn from a pool of ~30 values covering every value kind (Int incl. i64 limits, "
-        "Float, String incl. empty / multi-byte, Bool, Unit, lists, tuples, dict, Option, Result, struct, closure, "
+        "Float, String incl. empty / multi-byte, Bool, Unit, lists (incl. lists and dicts whose elements have different types), tuples, dict, Option, Result, struct, closure, "
         "named function, enum constructor, namespace); (b) every method name known to the prelude on every pool "
         "value as receiver with 0..2 arguments; (c) all 21 binary operators and += / -= over all ordered pairs of pool "
         "values; (d) values nested 10..50 000 deep (list / tuple / Some), printed, compared and dropped. Effects are "
         "confined: scratch working directory, path arguments are relative names in it, shell::run only sees `true`, "
         "`echo` and a non-existent command. Oracle: the process never exits 101 / by signal, never prints `panicked "
-        "at`, and every call returns within the watchdog. Non-trivial = the call got past arity checking (it returned "
+        "at` (a call that does not return within the watchdog, or that exhausts the 2 GB memory limit every child "
+        "process runs under, is inconclusive: termination of built-ins is C32's subject). Non-trivial = the call got past arity checking (it returned "
         "a value or an error that is not an arity error); distinct = distinct call text.")
 ASSUMPTIONS = ["a Garden-level error of any kind is an allowed outcome; only crashes and hangs are violations"]
 MANIFEST = dict(
@@ -46,8 +47,11 @@ POOL = [
     'Dict["k" => 1]', "Dict[]", "Some(1)", "None", 'Ok("v")', 'Err("e")', 'Pt{ x: 1, label: "l" }',
     'Path{ p: "gv_rel_file" }', 'Path{ p: "" }', 'Path{ p: "gv_rel_dir" }', "fun(x) { x }", "fun() { 1 }", "named_fun",
     "println", "Some", "Circle", "Dot", "fs", "[1.5, 2.5]", "[Some(1), None]",
+    # containers whose recorded element type (taken from one element) does not describe every element
+    '[1, "a"]', '["a", 1]', '[1, 2].append("b")', '["a"].append(1)', "[None, 1]", '[[1], "x"]',
+    'Dict["a" => 1, "b" => "s"]', 'Dict["a" => "s", "b" => 1]', "[fun(x) { x }, 1]", '[(1, "a"), 2]',
 ]
-SMALL_POOL = ["0", "(-1)", '""', '"a"', '"é☃😀"', "[]", "[1, 2]", "True", "Unit", "None", "Some(1)", "fun(x) { x }",
+SMALL_POOL = ['[1, "a"]', '["a", 1]', "0", "(-1)", '""', '"a"', '"é☃😀"', "[]", "[1, 2]", "True", "Unit", "None", "Some(1)", "fun(x) { x }",
               'Path{ p: "gv_rel_file" }', '"gv_rel_file"', "1.5", '(1, "a")', 'Dict["k" => 1]', "9223372036854775807"]
 
 
@@ -94,9 +98,11 @@ def check_calls(case, ctx) -> Res:
         if o.kind == "crash":
             return fail(o.msg, f"`{c}` crashed the interpreter: {o.msg}\n{o.stderr[-400:]}")
         if o.kind == "timeout":
-            r = run_garden(["run", "-c", PRELUDE + f"\nlet r = {c}\nprintln(string_repr(r))"], cwd=d, timeout=120)
+            r = run_garden(["run", "-c", PRELUDE + f"\nlet r = {c}\nprintln(string_repr(r))"], cwd=d, timeout=15)
             if r.timed_out:
-                return fail("call does not return: " + re.sub(r"\(.*", "", c), f"`{c}` did not return within 120 s")
+                # C02 is about crashes; termination of built-ins is C32's subject, and a call whose work is
+                # proportional to an integer argument (`range(0, 9223372036854775807)`) legitimately never ends
+                return Res(ok=True, inconclusive=True, detail=f"`{c}` did not return within 15 s")
             if r.crashed:
                 return fail(r.crash_sig(), f"`{c}` crashed the interpreter")
             continue
@@ -157,6 +163,97 @@ def enum_methods(tier):
                 if keep(c, 4 if tier == "thorough" else 200):
                     calls.append(c)
     yield from batches(calls)
+
+
+KIND_POOL = {
+    "int": ["0", "1", "(-1)", "64", "9223372036854775807", "(-9223372036854775807 - 1)"],
+    "float": ["1.5", "0.0", "(-2.5)"],
+    "string": ['""', '"a"', '"é☃😀"', '"a\\nb,c"', '"gv_rel_file"', '"echo"'],
+    "bool": ["True", "False"],
+    "unit": ["Unit"],
+    "list": ["[]", "[1, 2]", '["a", "echo"]', "[[1], []]", "[1.5, 2.5]", "[Some(1), None]", '[1, "a"]', '["a", 1]',
+             '[1, 2].append("b")', '["a"].append(1)', "[None, 1]", '[[1], "x"]', "[fun(x) { x }, 1]", '[(1, "a"), 2]',
+             '[(1, "a"), ("b", 2)]', "[[1], [\"s\"]]"],
+    "tuple": ['(1, "a")', "()", "(1,)", '("a", 1)'],
+    "dict": ['Dict["k" => 1]', "Dict[]", 'Dict["a" => 1, "b" => "s"]', 'Dict["a" => "s", "b" => 1]'],
+    "option": ["Some(1)", "None", 'Some("s")', "Some([1])", "Some(None)"],
+    "result": ['Ok("v")', 'Err("e")', "Ok(1)", "Err(1)"],
+    "path": ['Path{ p: "gv_rel_file" }', 'Path{ p: "" }', 'Path{ p: "gv_rel_dir" }'],
+    "fun": ["fun(x) { x }", "fun() { 1 }", "named_fun", "println", "fun(a, b) { a }", 'fun(x) { "s" }', "fun(x) { throw(\"t\") }"],
+    "any": ["0", '"a"', "[1, 2]", "None", "fun(x) { x }", '(1, "a")'],
+}
+
+
+def kind_of_hint(h: str) -> str:
+    h = h.strip()
+    for pre, k in (("Int", "int"), ("Float", "float"), ("String", "string"), ("Bool", "bool"), ("Unit", "unit"),
+                   ("List", "list"), ("(", "tuple"), ("Dict", "dict"), ("Option", "option"), ("Result", "result"),
+                   ("Path", "path"), ("Fun", "fun")):
+        if h.startswith(pre):
+            return k
+    return "any"
+
+
+def split_params(text: str):
+    out, depth, cur = [], 0, ""
+    for ch in text:
+        if ch in "<(":
+            depth += 1
+        elif ch in ">)":
+            depth -= 1
+        if ch == "," and depth == 0:
+            out.append(cur)
+            cur = ""
+        else:
+            cur += ch
+    if cur.strip():
+        out.append(cur)
+    return out
+
+
+def read_typed_decls():
+    """-> [(call template with {0}.. for receiver/params, [kinds])] from the declarations in the .gdn sources"""
+    decls = []
+    src_dir = os.path.join(REPO, "src")
+    for fname, ns in (("__prelude.gdn", ""), ("__fs.gdn", "fs::"), ("__shell.gdn", "shell::"),
+                      ("__random.gdn", "random::"), ("__reflect.gdn", "reflect::"), ("__time.gdn", "time::")):
+        try:
+            text = open(os.path.join(src_dir, fname), encoding="utf-8").read()
+        except OSError:
+            continue
+        for m in re.finditer(r"^public (?:shared )?(fun|method) (\w+)(?:<[^>]*>)?\((.*?)\)(?::[^{]*)? \{", text, re.M):
+            params = [p.split(":", 1)[1] if ":" in p else "" for p in split_params(m.group(3))]
+            kinds = [kind_of_hint(p) for p in params]
+            if m.group(1) == "method":
+                if not kinds:
+                    continue
+                decls.append(("({0})." + m.group(2) + "(" + ", ".join("{%d}" % (i + 1) for i in range(len(kinds) - 1)) + ")", kinds))
+            else:
+                decls.append((ns + m.group(2) + "(" + ", ".join("{%d}" % i for i in range(len(kinds))) + ")", kinds))
+    return decls
+
+
+def enum_typed(tier):
+    """every declared built-in / prelude function and method, called with arguments of the declared coarse kind: one
+    position at a time ranges over every pool value of that kind (including containers whose elements have different
+    types), the others hold a plain representative"""
+    calls = []
+    for tmpl, kinds in read_typed_decls():
+        rep = [KIND_POOL[k][min(1, len(KIND_POOL[k]) - 1)] for k in kinds]
+        if not kinds:
+            calls.append(tmpl)
+            continue
+        for i, k in enumerate(kinds):
+            for v in KIND_POOL[k]:
+                args = list(rep)
+                args[i] = v
+                calls.append(tmpl.format(*args))
+    seen, out = set(), []
+    for c in calls:
+        if c not in seen:
+            seen.add(c)
+            out.append(c)
+    yield from batches(out)
 
 
 def enum_operators(tier):
@@ -222,6 +319,7 @@ def show(case):
 SUBS = [
     Sub("functions", check_calls, enum=enum_functions, show=show),
     Sub("methods", check_calls, enum=enum_methods, show=show),
+    Sub("typed-calls", check_calls, enum=enum_typed, show=show),
     Sub("operators", check_calls, enum=enum_operators, show=show),
     Sub("deep-values", check_deep, enum=enum_deep, show=show),
 ]
